@@ -608,7 +608,7 @@ def headers_for(case, ifaces):
     for f in case["files"]:
         for n in f.get("nodes", []):
             if n["k"] == "interface" and n["name"] in ifaces:
-                s = _stem(f["path"])
+                s = os.path.splitext(os.path.normpath(f["path"]))[0]
                 if s not in stems:
                     stems.append(s)
     return stems
